@@ -1585,7 +1585,11 @@ class Segments:
         """
         if self.segments:
             prev_seg = self.segments[-1]
-            if prev_seg.mode == segment.mode and prev_seg.encoding == segment.encoding:
+            # Numeric / alphanumeric characters are encoded in groups of 3 / 2: the bits can
+            # only be concatenated if the previous segment does not end with an incomplete group
+            group_size = {consts.MODE_NUMERIC: 3, consts.MODE_ALPHANUMERIC: 2}.get(segment.mode, 1)
+            if prev_seg.mode == segment.mode and prev_seg.encoding == segment.encoding \
+                    and prev_seg.char_count % group_size == 0:
                 # Merge segment with previous segment
                 segment = _Segment(prev_seg.bits + segment.bits,
                                    prev_seg.char_count + segment.char_count,
